@@ -267,7 +267,11 @@ func (e *histEngine) doBuild(j *buildJob) {
 		last = "nothing"
 	}
 	vio := func(sig, format string, a ...any) {
-		e.c.R.Violate(vc.Violation{Sig: sig, Detail: fmt.Sprintf("history %v: ", histNow) + fmt.Sprintf(format, a...), Replay: replay})
+		if f.LoadOutputs == "minimal" && (strings.HasPrefix(sig, "C01:") || strings.HasPrefix(sig, "C02:")) {
+			// under load_outputs=minimal the same oracle decides C15 (same verdicts and executed sets as mode all)
+			sig = "C15:minimal-mode:" + sig[4:]
+		}
+		e.c.R.Violate(vc.Violation{Sig: sig, Detail: fmt.Sprintf("history %v (load_outputs=%s): ", histNow, f.LoadOutputs) + fmt.Sprintf(format, a...), Replay: replay})
 	}
 	order := closure(src, f.Pattern)
 	executed := map[string]bool{}
@@ -324,8 +328,8 @@ func (e *histEngine) doBuild(j *buildJob) {
 				t := *src.Target(l)
 				got := outputsListing(box.WS(), t)
 				if f.LoadOutputs == "minimal" && !executed[l] {
-					// minimal mode does not promise to materialise outputs of restored targets:
-					// only what is present must be right (checked through dependants' reads)
+					// minimal mode does not promise to materialise outputs of restored targets
+					// (what an executed dependant reads is checked through the read lines)
 					continue
 				}
 				if d := hist.DiffListing(got, cl.listings[l]); d != "" {
@@ -516,6 +520,20 @@ func init() {
 			e.preOps = preOpNames
 			if thorough {
 				e.flags = append(e.flags, buildFlags{Pattern: "//...", HashAlgo: "sha256"}, buildFlags{Pattern: "//...", LoadOutputs: "minimal"})
+			}
+		})(c)
+	}
+}
+
+func init() {
+	Registry["C15"] = func(c *Ctx) {
+		c.R.Rule = "the C01/C02 history search (13 source edits, 8 workspace pre-state operations, build //... and build //b:top) run by the REAL binary with --load-outputs=minimal; the reference cache model that mode 'all' is checked against (C01/C02) must predict the executed set of every minimal-mode build as well (same commands, same success), every command that executes must observe exactly what a from-scratch build observes of its dependency outputs (//b:top records the bytes, the symlink and the exec bit it reads from //b:app's directory output, which it reaches through //b:app -> alias -> //a:lib; //b:gen runs the restored bin tool), and every output of an executed target equals the from-scratch build. Thorough mixes 'all' and 'minimal' builds inside one history."
+		c.R.Assume("lock-step is realised through the shared reference model: mode 'all' is compared with the model by C01/C02, mode 'minimal' by this check", "commands of the model workspace are deterministic")
+		histCheck("C15", []string{"C15:"}, 3, 4, func(e *histEngine, thorough bool) {
+			e.preOps = []string{"delete-lib-output", "delete-dist-dir", "modify-lib-output", "chmod-minus-x-tool"}
+			e.flags = []buildFlags{{Pattern: "//...", LoadOutputs: "minimal"}, {Pattern: "//b:top", LoadOutputs: "minimal"}}
+			if thorough {
+				e.flags = append(e.flags, buildFlags{Pattern: "//...", LoadOutputs: "all"})
 			}
 		})(c)
 	}
